@@ -23,7 +23,225 @@ def main():
     importlib.import_module(f'pyvc.props.{m.name}')
     n += 1
   print(f'{n} proof scripts import')
-  return 0
+  bad = cross_check() + broken_bodies()
+  print('selftest', 'FAILED' if bad else 'ok')
+  return 1 if bad else 0
+
+
+CROSS = r'''
+def f_div(a, b):
+  return (a // b, a % b, -a // b, a % -b if b != 0 else 0)
+
+def f_slice(xs, i, j):
+  ys = list(xs)
+  ys.append(i)
+  ys.insert(0, j)
+  ys.reverse()
+  z = ys.pop()
+  return (ys[1:3], ys[:-1], ys[i:j], z, len(ys))
+
+def f_sort(xs):
+  ys = [(x % 3, x) for x in xs]
+  ys.sort(key=lambda t: t[0], reverse=True)
+  return ys
+
+def f_loop(n):
+  s = 0
+  out = []
+  for i in range(0, n, 2):
+    if i % 3 == 0:
+      continue
+    s += i
+    out.append(s)
+  while s > 10:
+    s //= 2
+  return (s, out, min(n, 4), max(n, 4))
+
+def f_try(n):
+  log = []
+  try:
+    try:
+      if n > 2:
+        raise ValueError('x')
+      log.append('body')
+    finally:
+      log.append('fin')
+  except ValueError:
+    log.append('caught')
+  return log
+
+def gen(n):
+  for i in range(n):
+    yield i * i
+
+def f_gen(n):
+  t = []
+  for v in gen(n):
+    t.append(v + 1)
+  return t
+
+def f_dict(n):
+  d = {'a': 1}
+  d['b'] = n
+  d['a'] += n
+  e = dict(d)
+  e.pop('b')
+  return (sorted_items(d), sorted_items(e), 'b' in e, len(d))
+
+def sorted_items(d):
+  return [(k, d[k]) for k in ('a', 'b') if k in d]
+
+def f_nested(n):
+  def inner(k):
+    return k + n
+  return [inner(i) for i in range(3)] + [x for x in (inner(n), n * 2)]
+'''
+
+CASES = [('f_div', (7, 2)), ('f_div', (-7, 2)), ('f_div', (7, -2)), ('f_div', (-7, -3)),
+         ('f_slice', ([1, 2, 3, 4], 1, 3)), ('f_slice', ([5], 0, 9)), ('f_slice', ([1, 2, 3], -2, 2)),
+         ('f_sort', ([5, 3, 9, 4, 6, 1],)), ('f_loop', (0,)), ('f_loop', (9,)), ('f_loop', (40,)),
+         ('f_try', (1,)), ('f_try', (5,)), ('f_gen', (0,)), ('f_gen', (4,)), ('f_dict', (3,)), ('f_nested', (2,))]
+
+
+def to_py(ctx, v):
+  import z3
+  from .core import Ref, PyListCell, ListCell, is_z3
+  from .engine import DictCell
+  if isinstance(v, Ref):
+    c = v.cell(ctx)
+    if isinstance(c, PyListCell):
+      return [to_py(ctx, x) for x in c.items]
+    if isinstance(c, DictCell):
+      return {k: to_py(ctx, x) for k, x in c.items}
+    raise ValueError(f'cell {type(c).__name__}')
+  if isinstance(v, tuple):
+    return tuple(to_py(ctx, x) for x in v)
+  if is_z3(v):
+    s = z3.simplify(v)
+    if z3.is_int_value(s):
+      return s.as_long()
+    if z3.is_true(s) or z3.is_false(s):
+      return z3.is_true(s)
+    raise ValueError(f'symbolic result {s}')
+  return v
+
+
+def cross_check():
+  """The symbolic executor on concrete inputs must agree with CPython."""
+  import ast
+  from .core import FuncV, Sink, PyListCell
+  from .engine import Engine, Loop
+  tree = ast.parse(CROSS)
+  ns = {}
+  exec(compile(tree, '<cross>', 'exec'), ns)
+  defs = {n.name: n for n in tree.body if isinstance(n, ast.FunctionDef)}
+  bad = 0
+  for name, args in CASES:
+    want = ns[name](*[list(a) if isinstance(a, list) else a for a in args])
+    got = {}
+    eng = Engine({})
+
+    def body(ctx):
+      for n_, d in defs.items():
+        eng.globals[n_] = FuncV(d, (), name=n_, loops={i: Loop(unroll=40) for i in range(4)})
+      a = [ctx.alloc(PyListCell(list(x))) if isinstance(x, list) else x for x in args]
+      kind, r = eng.run_function(ctx, eng.globals[name], a)
+      got['v'] = (kind, to_py(ctx, r) if kind == 'return' else r.name)
+    sink = Sink()
+    paths = eng.explore(sink, name, body)
+    norm = lambda x: json_norm(x)
+    if paths != 1 or got.get('v') != ('return', want) and norm(got.get('v', (None, None))[1]) != norm(want):
+      print(f'  CROSS-CHECK MISMATCH {name}{args}: engine {got.get("v")} ({paths} paths), CPython {want}')
+      bad += 1
+  print(f'cross-check: {len(CASES)} concrete runs of the executor against CPython, {bad} mismatches')
+  return bad
+
+
+def json_norm(x):
+  if isinstance(x, (list, tuple)):
+    return [json_norm(y) for y in x]
+  if isinstance(x, dict):
+    return {k: json_norm(v) for k, v in x.items()}
+  return x
+
+
+BROKEN = r'''
+def total(xs):
+  s = 0
+  for x in xs:
+    s = s + x
+  return s
+
+def total_broken(xs):
+  s = 0
+  for x in xs:
+    s = s + x
+  return s + 1
+
+def clamp(x, lo, hi):
+  if x < lo:
+    return lo
+  if x > hi:
+    return hi
+  return x
+
+def clamp_broken(x, lo, hi):
+  if x < lo:
+    return lo
+  if x >= hi:
+    return hi - 1
+  return x
+'''
+
+
+def broken_bodies():
+  """A correct body must verify and a deliberately broken one must be refuted (with the loop rule and the solver chain)."""
+  import ast
+  import z3
+  from .core import FuncV, Sink, SeqV, INT
+  from .engine import Engine, Loop
+  from . import solve
+  tree = ast.parse(BROKEN)
+  defs = {n.name: n for n in tree.body if isinstance(n, ast.FunctionDef)}
+  SUM = z3.Function('SUM', z3.SeqSort(z3.IntSort()), z3.IntSort(), z3.IntSort())
+  xs = z3.Const('xs', z3.SeqSort(z3.IntSort()))
+  bad = 0
+  for name, expect in (('total', 'unsat'), ('total_broken', 'sat'), ('clamp', 'unsat'), ('clamp_broken', 'sat')):
+    eng = Engine({})
+    sink = Sink()
+
+    def body(ctx):
+      if name.startswith('total'):
+        def inv(s):
+          return s['s'] == SUM(xs, z3.IntVal(0) + s.it)
+        def hints(s):
+          k = s.it
+          from .core import LemmaInst
+          return [LemmaInst('sum.def', z3.And(SUM(xs, 0) == 0, z3.Implies(z3.And(k >= 1, k <= z3.Length(xs)),
+                                                                         SUM(xs, k) == SUM(xs, k - 1) + xs[k - 1])))]
+        ctx.assume(SUM(xs, 0) == 0)
+        f = FuncV(defs[name], (), name=name, loops={0: Loop(inv=lambda s: z3.And(s['s'] == SUM(xs, s.it), s.it >= 0, s.it <= z3.Length(xs)), hints=hints)})
+        kind, r = eng.run_function(ctx, f, [SeqV(xs, INT)])
+        ctx.oblige('post', r == SUM(xs, z3.Length(xs)))
+      else:
+        x, lo, hi = z3.Ints('x lo hi')
+        ctx.assume(lo <= hi)
+        kind, r = eng.run_function(ctx, FuncV(defs[name], (), name=name), [x, lo, hi])
+        ctx.oblige('post', z3.And(lo <= r, r <= hi, z3.Implies(z3.And(lo <= x, x <= hi), r == x)))
+    eng.explore(sink, name, body)
+    obs = sink.obligations
+    if not obs:
+      print(f'  BROKEN-BODY {name}: zero obligations')
+      bad += 1
+      continue
+    solve.discharge(obs, 'quick')
+    sts = {o.result['status'] for o in obs}
+    verdict = 'sat' if 'sat' in sts else ('unsat' if sts == {'unsat'} else 'unknown')
+    if verdict != expect:
+      print(f'  BROKEN-BODY {name}: expected {expect}, got {verdict} ({[(o.name, o.result["status"]) for o in obs]})')
+      bad += 1
+  print(f'broken bodies: 2 correct bodies verified, 2 broken bodies refuted' if not bad else f'broken bodies: {bad} wrong verdicts')
+  return bad
 
 
 if __name__ == '__main__':
